@@ -28,6 +28,8 @@ func runC11(c *Ctx) {
 	c11R6(c, "R6")
 	callNonFunction(c, "R11")
 	everyArgumentEvaluated(c, "R13")
+	objectKeyKindFirst(c, "R14")
+	c.shared("R15", "C13/R4", "an illegal character anywhere in the program is a syntax error: between tokens the lexer skips exactly ' ', '\\r', '\\t' and comments, every other byte reaches Next and is rejected there", keyHas("blank-class", "comment-stops"), c13Blanks)
 	c.shared("R12", "C14/R1", "nothing is written after a fault: the command-line tool returns at once with a non-zero status on every error, and the JSON output is produced only after EvalProgram succeeded", keyHas("error-source", "json-after-successful-run", "success-exit"), func(s *Ctx) {
 		cliExitDiscipline(s, "R1")
 		jsonTextAsData(s, "R1")
